@@ -183,7 +183,8 @@ class Gen:
         rng = self.rng
         out = ["import functools", "", "", "class Err(Exception):", "    pass", "", "", "class Meta(type):", "    pass", "", "",
                "class Suspend:", "    def __await__(self):", "        yield", "", "",
-               "def deco(f):", "    @functools.wraps(f)", "    def wrapper(*a, **kw):", "        return f(*a, **kw)", "    return wrapper", "", ""]
+               "def deco(f):", "    @functools.wraps(f)", "    def wrapper(*a, **kw):", "        return f(*a, **kw)", "    return wrapper", "", "",
+               "def _sink(x):", "    return None", "", ""]
         if self.values:
             out[:0] = ["from collections import defaultdict", "from vf.fixtures.hier import *  # noqa", "NoneType = type(None)"]
         labels = {"Suspend.__await__": "must", "deco": "must", "deco.<locals>.wrapper": "may"}
@@ -210,7 +211,8 @@ class Gen:
                 classes[cname]["members"].append([f"def __init__({sig.render(self)}):"] + ["    " + line for line in self.body(fn, [])])
                 labels[fn.qual] = "must"
         kinds = ["func", "func", "func", "method", "method", "classmethod", "staticmethod", "property", "wrapped", "recursive",
-                 "closure", "nested_method", "nested_static", "override", "inherited", "genfunc", "genfunc", "genmethod", "coro", "coro"]
+                 "closure", "nested_method", "nested_static", "override", "inherited", "genfunc", "genfunc", "genmethod", "coro", "coro",
+                 "cyclic", "mutret", "selfrec"]
         if self.opts.get("no_coro"):
             kinds = [k for k in kinds if k != "coro"]
         plan = [rng.choice(kinds) for _ in range(nfuncs)]
@@ -220,6 +222,44 @@ class Gen:
             idx += 1
             callees = [f for f in self.fns if f.kind != "init"]
             simple = rng.random() < 0.3
+            if kind in ("cyclic", "mutret", "selfrec"):
+                name = f"f{idx}"
+                sig = Sig(rng, simple=True)
+                sig.normal, sig.ndefault = 1, 0
+                if kind == "cyclic":
+                    # returns / passes on a list that contains itself: collecting its type fails, so no trace is
+                    # due for these completions - but nothing of the call may stay behind in the tracer either
+                    fn = Fn(idx, kind, "plain", name, name, "may", sig, access=name)
+                    module_funcs.append([f"def {name}(n0):", f"    _loc = {self.value()}", "    _l = [n0]", "    _l.append(_l)"]
+                                        + (["    _sink(_l)"] if rng.random() < 0.5 else []) + ["    return _l"])
+                    labels["_sink"] = "may"
+                elif kind == "mutret":
+                    # the returned object is one of the arguments, changed in place during the call
+                    fn = Fn(idx, kind, "plain", name, name, "must", sig, access=name)
+                    how = rng.choice(["list", "dict", "set"])
+                    if how == "list":
+                        body, empty = [f"    n0.append({self.value()})"], "[]"
+                    elif how == "dict":
+                        body, empty = [f"    n0[1] = {self.value()}"], "{}"
+                    else:
+                        body, empty = ["    n0.add(1)"], "set()"
+                    module_funcs.append([f"def {name}(n0):"] + body + ["    return n0"])
+                    fn.call_expr = (lambda g, r, name=name, empty=empty: f"{name}({empty})")
+                else:
+                    # a recursive local function kept only on an instance: at its calls it is a local of no caller,
+                    # only its own frame refers to it (through the closure cell it recurses by)
+                    cn = f"H{idx}"
+                    fn = Fn(idx, kind, "plain", "go", f"{cn}.go", "must", sig, access=name)
+                    module_funcs.append([f"class {cn}:", "    def setup(self):", "        def depth(n, a):", "            if n > 0:",
+                                         f"                return depth(n - 1, {self.value()})", f"            return {self.value()}",
+                                         "        self._cb = depth", "", "    def go(self, n0):", f"        return self._cb({rng.choice([0, 1, 2])}, n0)", "", "",
+                                         f"def {name}(n0):", f"    h = {cn}()", "    h.setup()", "    return h.go(n0)"])
+                    labels[f"{cn}.setup"] = labels[f"{cn}.go"] = labels[f"{cn}.setup.<locals>.depth"] = "must"
+                    labels[name] = "must"
+                    fn.qual = name
+                labels.setdefault(fn.qual, fn.label)
+                self.fns.append(fn)
+                continue
             if kind in ("func", "wrapped", "recursive", "genfunc", "coro", "closure"):
                 flavor = {"genfunc": "gen", "coro": "coro"}.get(kind, "plain")
                 name = f"f{idx}"
